@@ -108,19 +108,24 @@ class AllocatorAwarePointer
             {
                 if (get_allocator() != other.get_allocator())
                 {
+                    // allocate first because it might throw
+                    auto other_allocator = other.get_allocator();
+                    const auto new_ptr = AllocatorTraits::allocate(other_allocator, other.size());
                     deallocate();
                     propagate_on_container_copy_assignment(other);
                     size() = other.size();
-                    get() = allocate();
+                    get() = new_ptr;
                     return *this;
                 }
             }
             propagate_on_container_copy_assignment(other);
             if (size() < other.size() || !get())
             {
+                // allocate first because it might throw
+                const auto new_ptr = AllocatorTraits::allocate(get_allocator(), other.size());
                 deallocate();
                 size() = other.size();
-                get() = allocate();
+                get() = new_ptr;
             }
         }
         return *this;
